@@ -2,6 +2,7 @@
 //! Every harness is a `#[kani::proof]`; the same bodies are callable natively
 //! for replay through `replay::*` (see bin/check).
 #![allow(dead_code, unused_imports, clippy::all)]
+#![recursion_limit = "256"]
 extern crate alloc;
 
 pub mod common;
